@@ -273,7 +273,7 @@ impl Scenario for AllocMass {
         "additionally: seeded damaged / truncated / random byte strings for all subjects through drawn benign sources under the accounting allocator, oracle (ii) and (iii) only"
     }
     fn cases(&self, tier: Tier) -> u64 {
-        tiered(tier, 400_000, 60_000_000)
+        tiered(tier, 1_500_000, 60_000_000)
     }
     fn gen(&self, seed: u64, idx: u64, _tier: Tier) -> Plan {
         let mut rng = Rng::for_case(seed, "alloc_mass", idx);
